@@ -37,6 +37,7 @@ class C14(Prop):
                    "bigBed crash points after the header operation: the total summary and the item count are not final and not asked",
                    "f32 -0.0 is not generated", "compressed files: the trace is compared by status only; crash points and faults are still enumerated"]
     PER_CASE_TIMEOUT = 120.0
+    MODEL_TIMEOUT = 400.0      # crash-point replay of a two-pass bigBed case with 13 zoom levels takes ~90 s in the extracted model
 
     def malform(self, rng, c):
         """turn an accepted case into a refused one"""
